@@ -642,6 +642,8 @@ Definition code_agree (model impl : Z * Z) : bool :=
 Inductive case :=
 | CCert (c : acert) (impl : Z)                   (* ValidateCert: type code, 0 = error *)
 | CValidate (t : trc) (impl : Z)                 (* TRC.Validate: error code, 0 = valid *)
+| CDecode (t : trc) (impl : Z)                   (* DecodeTRC on crafted DER describing [t]: 0 = accepted,
+                                                    error code, 99 = rejected with an unclassified error *)
 | CVerify (pred : option trc) (t : trc) (sis : list sinfo)
           (impl : Z * Z)                         (* SignedTRC.Verify: coarse and fine class *)
           (upd : option (Z * list Z * list Z * list Z)).  (* TRC.ValidateUpdate result *)
@@ -659,6 +661,11 @@ Definition check (c : case) : N :=
   | CCert a impl => Check.verdict (ctype_code (validate_cert a) =? impl) true
   | CValidate t impl =>
       Check.verdict (validate_code t =? impl) (negb (impl =? 0) || rules_b t)
+  | CDecode t impl =>
+      Check.verdict
+        (if impl =? 0 then validate_code t =? 0
+         else negb (validate_code t =? 0) && ((impl =? 99) || (validate_code t =? impl)))
+        (negb (impl =? 0) || rules_b t)
   | CVerify pred t sis impl upd =>
       Check.verdict
         (code_agree (vres_code (verify pred t sis)) impl &&
@@ -670,6 +677,7 @@ Definition diag (c : case) : Z * Z * option (Z * list Z * list Z * list Z) :=
   match c with
   | CCert a _ => (ctype_code (validate_cert a), 0, None)
   | CValidate t _ => (validate_code t, if rules_b t then 1 else 0, None)
+  | CDecode t _ => (validate_code t, if rules_b t then 1 else 0, None)
   | CVerify pred t sis _ _ =>
       (fst (vres_code (verify pred t sis)), snd (vres_code (verify pred t sis)),
        upd_obs (validate_update pred t))
